@@ -253,6 +253,68 @@ def rule_mixed(ctx):
                 continue
         elif isinstance(st, ast.Assign) and isinstance(st.targets[0], ast.Subscript):
             stores.append(st)
+    # result assembled in a fresh constant buffer (np.zeros / np.empty / np.full ...) by masked stores only: every temperature must be claimed
+    # by one of the masks, the two branch temperatures included - otherwise the buffer's filler is the answer there
+    fresh = [st for st in f.body if isinstance(st, ast.Assign) and isinstance(st.targets[0], ast.Name) and isinstance(st.value, ast.Call)
+             and (dotted(st.value.func) or "").split(".")[-1] in ("zeros", "empty", "full", "zeros_like", "empty_like", "full_like", "ones", "ones_like")]
+    if fresh:
+        buf = fresh[0].targets[0].id
+        mstores = [st for st in stores if isinstance(st.targets[0].value, ast.Name) and st.targets[0].value.id == buf]
+        if not mstores or len(mstores) != len(stores):
+            raise AnalysisError("e_eq_mixed_mk: buffer form: stores %s are not all masked stores into %s" % ([norm(s_.targets[0]) for s_ in stores], buf))
+        from ..flow import Flow as _Flow
+        fl_ = _Flow(f)
+        conds = [fl_.resolve(s_.targets[0].slice, at=s_, depth=3, stop=(Tn,)) for s_ in mstores]
+        # exact: each mask becomes a set of real temperatures (sympy relational in T, thresholds as rationals); the union must be the whole line
+        Tr = sp.Symbol("T", real=True)
+        def _set(e_):
+            if isinstance(e_, ast.BinOp) and isinstance(e_.op, (ast.BitAnd, ast.BitOr)):
+                a_, b_ = _set(e_.left), _set(e_.right)
+                return sp.Intersection(a_, b_) if isinstance(e_.op, ast.BitAnd) else sp.Union(a_, b_)
+            if isinstance(e_, ast.UnaryOp) and isinstance(e_.op, ast.Invert):
+                return sp.Complement(sp.S.Reals, _set(e_.operand))
+            if isinstance(e_, ast.Call) and (dotted(e_.func) or "").split(".")[-1] in ("logical_and", "logical_or") and len(e_.args) == 2:
+                a_, b_ = _set(e_.args[0]), _set(e_.args[1])
+                return sp.Intersection(a_, b_) if dotted(e_.func).endswith("and") else sp.Union(a_, b_)
+            if isinstance(e_, ast.Call) and (dotted(e_.func) or "").split(".")[-1] == "logical_not" and len(e_.args) == 1:
+                return sp.Complement(sp.S.Reals, _set(e_.args[0]))
+            if isinstance(e_, ast.Compare) and len(e_.ops) == 1 and isinstance(e_.ops[0], (ast.Lt, ast.LtE, ast.Gt, ast.GtE)):
+                l_, r_ = _num(e_.left), _num(e_.comparators[0])
+                rel = {ast.Lt: sp.Lt, ast.LtE: sp.Le, ast.Gt: sp.Gt, ast.GtE: sp.Ge}[type(e_.ops[0])](l_, r_)
+                if rel in (sp.true, sp.false):
+                    return sp.S.Reals if rel == sp.true else sp.S.EmptySet
+                return rel.as_set()
+            raise AnalysisError("mask %s is not a combination of ordering comparisons" % norm(e_))
+        def _num(e_):
+            if isinstance(e_, ast.Name) and e_.id == Tn:
+                return Tr
+            if isinstance(e_, ast.Constant) and isinstance(e_.value, (int, float)) and not isinstance(e_.value, bool):
+                return sp.Rational(repr(e_.value)) if isinstance(e_.value, float) else sp.Integer(e_.value)
+            if isinstance(e_, ast.Attribute) and norm(e_) == "constants.triple_point_water":
+                return sp.Rational("273.16")
+            if isinstance(e_, ast.BinOp) and isinstance(e_.op, (ast.Add, ast.Sub, ast.Mult, ast.Div)):
+                a_, b_ = _num(e_.left), _num(e_.right)
+                return {ast.Add: a_ + b_, ast.Sub: a_ - b_, ast.Mult: a_ * b_, ast.Div: a_ / b_}[type(e_.op)]
+            if isinstance(e_, ast.UnaryOp) and isinstance(e_.op, ast.USub):
+                return -_num(e_.operand)
+            raise AnalysisError("term %s outside the affine class" % norm(e_))
+        try:
+            claimed = sp.Union(*[_set(c_) for c_ in conds])
+            rest = sp.Complement(sp.S.Reals, claimed)
+        except AnalysisError as e_:
+            raise AnalysisError("e_eq_mixed_mk: buffer form: %s" % e_)
+        except Exception as e_:
+            raise AnalysisError("e_eq_mixed_mk: buffer form: masks not solved (%s: %s)" % (type(e_).__name__, e_))
+        if rest != sp.S.EmptySet and not isinstance(rest, (sp.FiniteSet, sp.Interval, sp.Union)):
+            raise AnalysisError("e_eq_mixed_mk: buffer form: uncovered set not decided: %s" % rest)
+        uncovered = [] if rest == sp.S.EmptySet else [str(rest)]
+        ctx.ob("e_eq_mixed_mk.blend", not uncovered, "%s = %s filled through masks %s; temperatures claimed by no mask: %s" % (
+            buf, norm(fresh[0].value), [norm(c_)[:60] for c_ in conds], uncovered or "none"),
+               "every temperature - the two branch temperatures included - is written by one of the masked stores (elsewhere the buffer's filler is returned)",
+               node=fresh[0], func=f, witness=None if not uncovered else {"T": uncovered[0], "value": norm(fresh[0].value)})
+        if uncovered:
+            return
+        raise AnalysisError("e_eq_mixed_mk: buffer form: branch values not modelled")
     sel = calls_in(f.node, "select")
     if sel and len(sel) == 1 and len(sel[0].args) >= 2 and isinstance(sel[0].args[0], (ast.List, ast.Tuple)):
         # np.select([conditions], [values][, default]): every temperature must be claimed by a condition (or a default given)
